@@ -55,7 +55,8 @@ Theorem C02_splice_drop : forall c v u xs s e i j known ts k,
     unext u' = unext u /\ ufuse u' = None /\
     uevents u' = repeat ENext (length ts)
                  ++ (if c_dg c then rev (map EDrop (firstn (j - i) (skipn i xs))) else [])
-                 ++ uevents u.
+                 ++ uevents u /\
+    (N.of_nat new_len <= vcap v -> vcap v' = vcap v).
 Proof. exact splice_drop_spec. Qed.
 
 (** Non-vacuity / the defect D2 scenario on the repaired model:
